@@ -27,8 +27,10 @@ def handle (fn0 : String) (a : List Float) : Option (List Float) :=
     let t1 := trig q1
     let oo := 1 / t1.c
     let v : Vec3 Float := ⟨x, y, z⟩
-    some (v2l (multiplyByBodyXYZ_N_P t0 t1 oo v) ++ v2l (multiplyByBodyXYZ_NT_P t0 t1 oo v)
-          ++ v2l (multiplyByBodyXYZ_NInv_P t0 t1 v) ++ v2l (multiplyByBodyXYZ_NInvT_P t0 t1 v))
+    some (v2l (multiplyByBodyXYZ_N_P t0 t1 oo v) ++ v2l (multiplyByBodyXYZ_NT_P t0 t1 oo v))
+  | "mulNInvP", [q0, q1, x, y, z] =>
+    let v : Vec3 Float := ⟨x, y, z⟩
+    some (v2l (multiplyByBodyXYZ_NInv_P (trig q0) (trig q1) v) ++ v2l (multiplyByBodyXYZ_NInvT_P (trig q0) (trig q1) v))
   | "wBtoQd", [_, q1, q2, x, y, z] => some (v2l (convertAngVelInBodyFrameToBodyXYZDot (trig q1) (trig q2) ⟨x, y, z⟩))
   | "qdToWB", [_, q1, q2, x, y, z] => some (v2l (convertBodyXYZDotToAngVelInBodyFrame (trig q1) (trig q2) ⟨x, y, z⟩))
   | "wdBtoQdd", [_, q1, q2, x, y, z, dx, dy, dz] =>
